@@ -1469,12 +1469,35 @@ func c06Conjoin(c *Ctx, p *Prog, R string) {
 		return
 	}
 	n := 0
+	// the stores to the caller's filter: in Parse itself, or in a function of the package that Parse calls to do it
+	type site struct {
+		st *ssa.Store
+		at ssa.Instruction // where, in Parse, the filter changes
+	}
+	var sites []site
 	for _, st := range storesToField(fn, matchF) {
+		sites = append(sites, site{st, st})
+	}
+	eachInstr(fn, func(_ *ssa.BasicBlock, in ssa.Instruction) {
+		call, ok := in.(*ssa.Call)
+		if !ok {
+			return
+		}
+		g := call.Call.StaticCallee()
+		if g == nil || g.Pkg != fn.Pkg || g.Blocks == nil || g == fo {
+			return
+		}
+		for _, st := range storesToField(g, matchF) {
+			sites = append(sites, site{st, in})
+		}
+	})
+	for _, s := range sites {
+		st := s.st
 		n++
 		// the caller's filter is touched only once the whole expression is known to be valid: no error return is
 		// reachable after the store
 		errAfter := false
-		for b := range reachFrom(st.Block(), nil) {
+		for b := range reachFrom(s.at.Block(), nil) {
 			ret, ok := b.Instrs[len(b.Instrs)-1].(*ssa.Return)
 			if !ok || len(ret.Results) == 0 {
 				continue
